@@ -150,4 +150,6 @@ def main():
     json.dump({"results": res, "str_of": [str(x) for x in req.get("str_of", [])]}, sys.stdout)
 
 
-main()
+
+if __name__ == "__main__":
+    main()
